@@ -13,6 +13,7 @@ import itertools
 import equinox as eqx
 import jax
 import jax.numpy as jnp
+import jax.random as jr
 import numpy as np
 import z3
 
@@ -561,6 +562,49 @@ def unit_gym(S):
         S.prove("GymToLerax/components-are-projections", ctx, sand(kit.tree_eq(obs, ns.observation), ir.seq(rew.scalar(), ns.reward.scalar()), ir.seq(ter.scalar(), ns.terminal.scalar()),
                                                                      ir.seq(tru.scalar(), ns.truncated.scalar())), function=fn,
                 what="observation / reward / terminal / truncate are the stored fields of the successor state")
+
+        # initial: the seed handed to env.reset - an explicit seed (0 included) overrides the key; otherwise a seed drawn from the key
+        for seed in (0, 7, None):
+            calls.clear()
+            ctx2 = Ctx()
+            k2, kc2 = kit.key_input("key")
+            with extract.patched((jr, "randint", lambda key, shape, minval, maxval, dtype=int: opaque.ocall("randint", sd(tuple(shape), jnp.int32), key))):
+                st0 = run(ctx2, (lambda kk: env.initial(key=kk)) if seed is None else (lambda kk, seed=seed: env.initial(key=kk, seed=seed)), k2)
+            io0 = [c_ for c_ in ctx2.calls if c_.name.startswith("gym.io#")]
+            tag = f"GymToLerax.initial[seed={seed}]"
+            S.fact(f"{tag}/one-ordered-reset-callback", len(io0) == 1 and all(c_["ordered"] for c_ in calls), function=fn + ".initial", replay=native_gym_seed_replay, what="one ordered io_callback resets the Gymnasium env")
+            if len(io0) == 1:
+                sv = io0[0].operands[0].scalar()
+                if seed is None:
+                    from lvc.vc import term_contains
+                    S.fact(f"{tag}/seed-drawn-from-the-key", ir.is_z3(sv) and term_contains(sv, kc2), function=fn + ".initial", replay=native_gym_seed_replay, what="without an explicit seed the reset seed is derived from the key")
+                else:
+                    S.fact(f"{tag}/explicit-seed-overrides-the-key", (not ir.is_z3(sv)) and int(sv) == seed, function=fn + ".initial", replay=native_gym_seed_replay,
+                           what="an explicit seed - 0 included - is the seed handed to env.reset, whatever the key", detail=str(sv))
+                S.prove(f"{tag}/state-holds-the-reset-observation", ctx2, sand(kit.tree_eq(st0.observation, io0[0].outputs[0]), ir.seq(st0.reward.scalar(), 0), ir.seq(st0.terminal.scalar(), False), ir.seq(st0.truncated.scalar(), False)),
+                        function=fn + ".initial", replay=native_gym_seed_replay, what="the initial state holds the reset observation, reward 0 and both flags False")
+
+
+def native_gym_seed_replay(model):
+    """R1: the real GymToLeraxEnv over Gymnasium CartPole-v1: initial(key, seed=s) must give Gymnasium's own reset(seed=s) observation for s in {0, 1, 7}, under two different keys;
+    without a seed, two different keys give different resets and the same key the same one."""
+    import gymnasium
+    from lerax.compatibility import gym as G
+    genv = gymnasium.make("CartPole-v1")
+    env = G.GymToLeraxEnv(genv)
+    ref = gymnasium.make("CartPole-v1")
+    for s in (0, 1, 7):
+        exp, _ = ref.reset(seed=s)
+        for ks in (0, 5):
+            got = np.asarray(env.initial(key=jax.random.key(ks), seed=s).observation)
+            if not np.allclose(got, exp, atol=1e-6):
+                return dict(reproduced=True, route="R1 (real GymToLeraxEnv over gymnasium CartPole-v1)", inputs=dict(seed=s, key_seed=ks), observed=dict(adapter_reset_observation=got.tolist(), gymnasium_reset_observation=np.asarray(exp).tolist()))
+    a = np.asarray(env.initial(key=jax.random.key(1)).observation)
+    b = np.asarray(env.initial(key=jax.random.key(2)).observation)
+    a2 = np.asarray(env.initial(key=jax.random.key(1)).observation)
+    if np.allclose(a, b) or not np.allclose(a, a2):
+        return dict(reproduced=True, route="R1 (real GymToLeraxEnv over gymnasium CartPole-v1)", inputs=dict(keys=[1, 2, 1]), observed=dict(obs_key1=a.tolist(), obs_key2=b.tolist(), obs_key1_again=a2.tolist()))
+    return dict(reproduced=False, note="explicit seeds (0 included) reproduce Gymnasium's resets; key-derived seeds are a function of the key")
 
 
 def _lerax_to_gym(S):
